@@ -81,7 +81,9 @@ def run_targeted(case):
     if name not in tg:
         return {"status": "undecided", "counters": {"unknown_target": 1}}
     try:
-        q = tg[name]()
+        # built under the same configuration it is planned and run with (a join caches planning decisions when it is built)
+        with dask.config.set({"dataframe.shuffle.method": "tasks"}):
+            q = tg[name]()
     except Exception as ex:
         return {"status": "refused", "counters": {"build_refused": 1}, "sets": {"build_refusals": [f"{name}:{type(ex).__name__}"]}}
     counters = {"targeted_cases": 1}
